@@ -254,9 +254,10 @@ func (self *VM) SpawnAsync(
 	}
 
 	index := 0
+	checkedArgs := make([]value.Value, 0, len(invocation.Args))
 	for _, param := range invocation.FunctionSignature.Params {
 		arg := invocation.Args[index]
-		_, interrupt := value.DeepCast(arg, param.Type, errors.Span{}, false)
+		castArg, interrupt := value.DeepCast(arg, param.Type, errors.Span{}, false)
 		if interrupt != nil {
 			panic(fmt.Sprintf(
 				"ARGS=%s | Argument %d for param `%s` type mismatch: `%s`",
@@ -266,6 +267,8 @@ func (self *VM) SpawnAsync(
 				(*interrupt).Message(),
 			))
 		}
+		// The callee must see the admitted value (e.g. `Some(x)` for an `x` passed to a `?T` parameter).
+		checkedArgs = append(checkedArgs, *castArg)
 
 		index++
 	}
@@ -273,7 +276,7 @@ func (self *VM) SpawnAsync(
 	return self.spawnCoreInternal(
 		invocation.Function,
 		// Arguments are pushed in declared order, just like a compiled call does it.
-		invocation.Args,
+		checkedArgs,
 		debuggerOut,
 		debuggerResume,
 		invocation.LiteralName,
@@ -304,9 +307,10 @@ func (self *VM) SpawnSync(
 	}
 
 	index := 0
+	checkedArgs := make([]value.Value, 0, len(invocation.Args))
 	for _, param := range invocation.FunctionSignature.Params {
 		arg := invocation.Args[index]
-		_, interrupt := value.DeepCast(arg, param.Type, errors.Span{}, false)
+		castArg, interrupt := value.DeepCast(arg, param.Type, errors.Span{}, false)
 		if interrupt != nil {
 			panic(fmt.Sprintf(
 				"ARGS=%s | Argument %d for param `%s` type mismatch: `%s`",
@@ -316,6 +320,8 @@ func (self *VM) SpawnSync(
 				(*interrupt).Message(),
 			))
 		}
+		// The callee must see the admitted value (e.g. `Some(x)` for an `x` passed to a `?T` parameter).
+		checkedArgs = append(checkedArgs, *castArg)
 
 		index++
 	}
@@ -323,7 +329,7 @@ func (self *VM) SpawnSync(
 	coreHandle := self.spawnCoreInternal(
 		invocation.Function,
 		// Arguments are pushed in declared order, just like a compiled call does it.
-		invocation.Args,
+		checkedArgs,
 		debuggerOut,
 		debuggerResume,
 		invocation.LiteralName,
